@@ -3,6 +3,7 @@ import DaskModel.Model.Blockwise
 import DaskModel.Model.Annot
 import DaskModel.Model.HLG
 import DaskModel.Model.Elemwise
+import DaskModel.Model.MapBlocks
 import DaskModel.Generated.FuseRules
 open Dask
 
@@ -254,9 +255,58 @@ def hArgPos : Handler := handler fun a => match a with
     pure (SExp.ofOptNat (argPos co ca i))
   | _ => none
 
+/-! C35: map_blocks index plan, block_info, gufunc loop dims -/
+open Dask.MapBlocks in
+def ofInfo (i : Info) : SExp :=
+  .list [SExp.ofNats i.shape, SExp.ofNats i.numChunks,
+         .list (i.arrayLocation.map fun p => .list [SExp.ofNat p.1, SExp.ofNat p.2]), SExp.ofNats i.chunkLocation]
+
+def toOptNatss? : SExp → Option (Option (List (List Nat)))
+  | .sym "none" => some none
+  | e => (e.toNatss?).map some
+
+open Dask.MapBlocks in
+/-- `(mbplan (ndims…) (drop…) (newaxis…) chunks|none)` ↦ `(ok (outInd…) ((sym (chunks…))…))` | `(raised)` -/
+def hMbPlan : Handler := handler fun a => match a with
+  | [nd, drop, na, ch] => do
+    let nd ← nd.toNats?
+    let drop ← drop.toInts?
+    let na ← na.toNats?
+    let ch ← toOptNatss? ch
+    pure (okOr ((plan nd drop na ch).map fun p =>
+      .list [SExp.ofNats p.outInd, .list (p.newAxes.map fun q => .list [SExp.ofNat q.1, SExp.ofNats q.2])]))
+  | _ => none
+
+open Dask.MapBlocks in
+def toAArg? : SExp → Option AArg
+  | .list [ind, chunks] => do pure { ind := ← ind.toNats?, chunks := ← chunks.toNatss? }
+  | _ => none
+
+open Dask.MapBlocks in
+/-- `(blockinfo dropping (outInd…) (outChunks…) (blockId…) (args…))` ↦ `(ok (argInfo…) outInfo (chunk-shape…))` -/
+def hBlockInfo : Handler := handler fun a => match a with
+  | [dr, oi, oc, bid, args] => do
+    let dr ← dr.toBool?
+    let oi ← oi.toNats?
+    let oc ← oc.toNatss?
+    let bid ← bid.toNats?
+    let args ← (← args.toList?).mapM toAArg?
+    pure (okOr do
+      let infos ← Dask.Blockwise.traverse (argInfo dr oi bid) args
+      let (o, cs) ← outInfo oc bid
+      pure (.list [.list (infos.map ofInfo), ofInfo o, SExp.ofNats cs]))
+  | _ => none
+
+open Dask.MapBlocks in
+/-- `(loopdims max n)` -/
+def hLoopDims : Handler := handler fun a => match a with
+  | [m, n] => do pure (SExp.ofNats (loopDims (← m.toNat?) (← n.toNat?)))
+  | _ => none
+
 end HlgDrv
 
 def table : List (String × Handler) := [
+  ("mbplan", HlgDrv.hMbPlan), ("blockinfo", HlgDrv.hBlockInfo), ("loopdims", HlgDrv.hLoopDims),
   ("bshapes", HlgDrv.hBShapes), ("cbd", HlgDrv.hCbd), ("unify", HlgDrv.hUnify), ("argpos", HlgDrv.hArgPos),
   ("bdims", HlgDrv.hBdims), ("makedims", HlgDrv.hMakeDims), ("coordmap", HlgDrv.hCoordMap),
   ("dummies", HlgDrv.hDummies), ("argcoords", HlgDrv.hArgCoords), ("argcoordsspec", HlgDrv.hArgCoordsSpec),
